@@ -28,7 +28,7 @@ def r1(ctx):
     labels = Attr(m, "point_labels")
     T = tm.length(labels)
     if not isinstance(rt, Poly) or len(rt.terms) != 2:
-        ctx.fail(fi, "BIC is not the sum of a penalty term and a likelihood term", role="shape", expected="P*log(T) - 2*sum_k(...)", found=str(rt)[:200])
+        ctx.unrecognised(fi, "the returned value is not of the form penalty + likelihood term (P*log(T) - 2*sum_k(...))", role="shape", found=str(rt)[:200])
         return
     lik = pen = None
     for mono, c in rt.terms:
